@@ -1125,3 +1125,282 @@ Proof.
   - destruct Hm; reflexivity.
   - rewrite Hm. reflexivity.
 Qed.
+
+(* ================================================================================================ *)
+(* (1, continued) the file round trip `norm_val` moves a value inside its vsim class                *)
+(* ================================================================================================ *)
+Definition roundtrip_exception (v : pval) : bool :=
+  match v with VBool _ | VFloat _ | VBytes _ | VDict _ => true | _ => false end.
+
+Lemma read_np_asarray_np dt tok i : read_dataset (H5Data (VArr dt [] tok (option_map (fun z => [z]) i))) = VNp dt tok i.
+Proof. destruct i; reflexivity. Qed.
+
+Lemma norm_val_seq_cases c l v' : norm_val (mkseq c l) = Ok v' ->
+  (exists zs dt tok, ints_view l = Some zs /\ v' = VArr dt [lenZ zs] tok (Some zs)) \/
+  (exists rows, ints_view l = None /\ mapM row_strs l = Ok rows /\ v' = rows_val rows).
+Proof.
+  intros H.
+  assert (H' : (do d <- np_asarray (mkseq c l); Ok (read_dataset d)) = Ok v') by (destruct c; exact H). clear H.
+  assert (Hnp : np_asarray (mkseq c l) =
+    match l with
+    | [] => Ok (H5Data (VArr "float64" [0] (-1) (Some [])))
+    | _ => match ints_view l with
+           | Some zs => if forallb int64_ok zs then Ok (H5Data (VArr "int64" [lenZ zs] (-1) (Some zs))) else Err TypeError
+           | None => match mapM row_strs l with Ok rows => Ok (H5Strs "vlen-utf-8" rows) | Err _ => Err TypeError end
+           end
+    end) by (destruct c; reflexivity).
+  rewrite Hnp in H'. clear Hnp.
+  destruct l as [|x r].
+  - cbn [bind read_dataset] in H'. inversion H'. left. exists [], "float64", (-1). split; reflexivity.
+  - remember (x :: r) as l eqn:El. clear El.
+    destruct (ints_view l) as [zs|] eqn:Hi.
+    + destruct (forallb int64_ok zs); [|discriminate]. cbn [bind read_dataset] in H'. inversion H'.
+      left. exists zs, "int64", (-1). split; [reflexivity|]. destruct zs; reflexivity.
+    + destruct (mapM row_strs l) as [rows|] eqn:Hm; [|discriminate]. cbn [bind read_dataset] in H'. inversion H'.
+      right. exists rows. repeat split; reflexivity.
+Qed.
+
+Lemma norm_val_seq c l v' : norm_val (mkseq c l) = Ok v' -> vsim (mkseq c l) v'.
+Proof.
+  intros H. destruct (norm_val_seq_cases _ _ _ H) as [(zs & dt & tok & Hi & ->)|(rows & Hi & Hm & ->)].
+  - apply vs_seq_arr. exact Hi.
+  - apply vs_rows; assumption.
+Qed.
+
+Theorem norm_val_vsim v v' : norm_val v = Ok v' -> roundtrip_exception v = false -> vsim v v'.
+Proof.
+  intros H Hex. destruct v; try discriminate.
+  - cbn in H. destruct (int64_ok z); [inversion H; apply vs_int_np|].
+    destruct ((0 <=? z) && (z <? 18446744073709551616)); [inversion H; apply vs_int_np|discriminate].
+  - cbn in H. inversion H. apply vs_refl.
+  - destruct sh as [|n sh].
+    + rewrite norm_val_array0 in H. inversion H. apply vs_arr0_np.
+    + rewrite norm_val_array in H by discriminate. inversion H. apply vs_refl.
+  - rewrite norm_val_npscalar in H. inversion H. apply vs_refl.
+  - apply (norm_val_seq true). exact H.
+  - apply (norm_val_seq false). exact H.
+Qed.
+
+(* ---- the exact exceptions ------------------------------------------------------------------------ *)
+Definition is_float (v : pval) : bool := match v with VFloat _ => true | _ => false end.
+Lemma vsim_is_float a b : vsim a b -> is_float a = is_float b.
+Proof.
+  intros H. vsim_ind H; try reflexivity; try congruence.
+  - destruct c; reflexivity.
+  - destruct c, c'; reflexivity.
+  - destruct c; reflexivity.
+Qed.
+
+(* bool: becomes a numpy bool_ scalar, which the model does not read as an integer (int_view changes) *)
+Theorem norm_val_bool b :
+  norm_val (VBool b) = Ok (VNp "bool" (-1) None) /\ ~ vsim (VBool b) (VNp "bool" (-1) None) /\
+  int_view (VBool b) = Some (if b then 1 else 0) /\ int_view (VNp "bool" (-1) None) = None.
+Proof.
+  split; [reflexivity|]. split; [|split; reflexivity].
+  intros H. apply vsim_int_view in H; [discriminate|reflexivity|reflexivity].
+Qed.
+
+(* float: becomes a numpy float64 scalar (content not modelled).  Not vsim (vsim keeps floats apart), yet every
+   view except shape_attr gives the same answer: the only observable change is `.shape` (S1 again). *)
+Theorem norm_val_float x :
+  let a := VFloat x in let b := VNp "float64" (-1) None in
+  norm_val a = Ok b /\ ~ vsim a b /\
+  int_view a = int_view b /\ seq_view a = seq_view b /\ num_view a = num_view b /\ hp_of a = hp_of b /\
+  tyv_of_pval a = tyv_of_pval b /\ pad_is_bad_string a = pad_is_bad_string b /\ pair_if_int a = a /\ pair_if_int b = b /\
+  operand_shape a = operand_shape b /\ (forall key, parse_shape a key = parse_shape b key) /\
+  shape_attr a = Err AttributeError /\ shape_attr b = Ok [].
+Proof.
+  cbv zeta. split; [reflexivity|]. split; [intros H; apply vsim_is_float in H; discriminate|].
+  repeat split; reflexivity.
+Qed.
+
+(* bytes: come back as str; a bytes padding is always rejected, the str it becomes may be accepted *)
+Theorem norm_val_bytes s :
+  norm_val (VBytes s) = Ok (VStr s) /\ ~ vsim (VBytes s) (VStr s) /\
+  pad_is_bad_string (VBytes "same") = true /\ pad_is_bad_string (VStr "same") = false.
+Proof.
+  split; [reflexivity|]. split; [|split; reflexivity].
+  intros H. apply vsim_str_view in H. discriminate.
+Qed.
+
+(* None cannot be written at all *)
+Lemma norm_val_none : norm_val VNone = Err TypeError.
+Proof. reflexivity. Qed.
+
+(* ---- dictionaries: entry by entry, provided no empty "metadata" entry is dropped -------------------- *)
+Fixpoint rt_ok (v : pval) : Prop :=
+  match v with
+  | VBool _ | VFloat _ | VBytes _ => False
+  | VDict kv =>
+    (fix go (l : list (string * pval)) : Prop :=
+       match l with
+       | [] => True
+       | (k, x) :: r => (k = "metadata" -> x <> VDict []) /\ rt_ok x /\ go r
+       end) kv
+  | _ => True
+  end.
+
+Lemma rt_ok_cons k x r : rt_ok (VDict ((k, x) :: r)) <-> (k = "metadata" -> x <> VDict []) /\ rt_ok x /\ rt_ok (VDict r).
+Proof. reflexivity. Qed.
+
+Lemma rt_ok_exception v : rt_ok v -> is_dict v = false -> roundtrip_exception v = false.
+Proof. destruct v; cbn; try reflexivity; try contradiction; discriminate. Qed.
+
+Lemma fields_sim_dict kv kv' : fields_sim kv kv' -> vsim (VDict kv) (VDict kv').
+Proof.
+  intros H. induction H as [|[k a] [k' b] r r' [Hk Hv] Hr IH]; [apply vs_refl|].
+  cbn [fst snd] in Hk, Hv. subst k'. apply vs_dict_cons; assumption.
+Qed.
+
+Lemma norm_entries_sim_gen kv :
+  Forall (fun p => forall v', rt_ok (snd p) -> norm_val (snd p) = Ok v' -> vsim (snd p) v') kv ->
+  forall kv', rt_ok (VDict kv) -> norm_entries kv = Ok kv' -> fields_sim kv kv'.
+Proof.
+  intros IH. induction kv as [|[k x] r IHr]; intros kv' Hok Hn.
+  - cbn in Hn. inversion Hn. constructor.
+  - apply rt_ok_cons in Hok as (Hmeta & Hx & Hr). inversion IH as [|? ? Px Pr]; subst.
+    rewrite norm_entries_cons in Hn. destruct (has_bad_char k); [discriminate|].
+    apply bind_ok in Hn as (here & Hhere & Hn). apply bind_ok in Hn as (rest & Hrest & Hn). inversion Hn; subst kv'.
+    assert (Hy : exists y, norm_val x = Ok y /\ here = [(k, y)]).
+    { destruct (String.eqb k "metadata") eqn:Ek.
+      - apply String.eqb_eq in Ek. specialize (Hmeta Ek). destruct x; try discriminate.
+        destruct kv as [|e0 kv0]; [congruence|].
+        apply bind_ok in Hhere as (y & Hy & Hh). inversion Hh. eauto.
+      - destruct (unusable_name k); [discriminate|].
+        apply bind_ok in Hhere as (y & Hy & Hh). inversion Hh. eauto. }
+    destruct Hy as (y & Hy & ->). cbn [app].
+    constructor; [split; [reflexivity|apply Px; assumption]|apply IHr; assumption].
+Qed.
+
+Theorem norm_val_vsim_deep v : forall v', rt_ok v -> norm_val v = Ok v' -> vsim v v'.
+Proof.
+  induction v as [|z|b|b|s|s|dt sh tok ints|dt tok i|l _|l _|kv IH] using pval_ind2; intros v' Hok H;
+    try (apply norm_val_vsim; [exact H|reflexivity]); try contradiction.
+  rewrite norm_val_dict in H. apply bind_ok in H as (kv' & Hn & H). inversion H; subst v'. clear H.
+  apply fields_sim_dict. eapply norm_entries_sim_gen; eassumption.
+Qed.
+
+(* a dictionary of fields (without an empty "metadata" entry, which the writer drops, and without bool / float /
+   bytes values) is read back with the same keys in the same order and vsim-related values: exactly the
+   hypothesis `fields_sim` of post_init_sim *)
+Theorem norm_entries_fields_sim kv kv' : rt_ok (VDict kv) -> norm_entries kv = Ok kv' -> fields_sim kv kv'.
+Proof.
+  intros Hok H. apply norm_entries_sim_gen; [|exact Hok|exact H].
+  apply Forall_forall. intros p _ v' Hp Hv. apply norm_val_vsim_deep; assumption.
+Qed.
+
+(* ================================================================================================ *)
+(* keyword binding respects fields_sim, hence so does the constructor call                          *)
+(* ================================================================================================ *)
+Lemma fields_sim_keys fs fs' : fields_sim fs fs' -> keys fs = keys fs'.
+Proof.
+  intros H. induction H as [|p q r r' [Hk _] Hr IH]; [reflexivity|]. unfold keys in *. cbn [map]. rewrite Hk, IH. reflexivity.
+Qed.
+
+Lemma bind_fields_sim tbl args args' :
+  fields_sim args args' -> res_rel fields_sim (bind_fields tbl args) (bind_fields tbl args').
+Proof.
+  intros H. induction tbl as [|[f d] r IH]; cbn [bind_fields]; [constructor|].
+  pose proof (fields_rel_assoc _ _ _ f H) as Ha.
+  assert (Hv : res_rel vsim
+            match assoc f args with Some v => Ok v | None =>
+              match d with FMandatory => Err TypeError | FDefault v => Ok v | FDictFactory => Ok (VDict []) | FUnknown => Err OtherError end end
+            match assoc f args' with Some v => Ok v | None =>
+              match d with FMandatory => Err TypeError | FDefault v => Ok v | FDictFactory => Ok (VDict []) | FUnknown => Err OtherError end end).
+  { destruct (assoc f args), (assoc f args'); try contradiction; [exact Ha|].
+    destruct d; cbn; try exact I; apply vs_refl. }
+  destruct (match assoc f args with Some v => Ok v | None => _ end) as [v|],
+           (match assoc f args' with Some v => Ok v | None => _ end) as [v'|]; cbn [res_rel bind] in *; try contradiction; [|exact I].
+  destruct (bind_fields r args) as [rest|], (bind_fields r args') as [rest'|]; cbn [res_rel bind] in *; try contradiction; [|exact I].
+  constructor; [split; [reflexivity|exact Hv]|exact IH].
+Qed.
+
+Lemma forallb_keys (P : string -> bool) (fs fs' : list (string * pval)) :
+  fields_sim fs fs' -> forallb (fun a => P (fst a)) fs = forallb (fun a => P (fst a)) fs'.
+Proof.
+  intros H. induction H as [|p q r r' [Hk _] Hr IH]; [reflexivity|]. cbn [forallb]. rewrite Hk, IH. reflexivity.
+Qed.
+
+Theorem bind_args_sim k args args' :
+  fields_sim args args' -> res_rel fields_sim (bind_args k args) (bind_args k args').
+Proof.
+  intros H. unfold bind_args. destruct (class_fields k) as [tbl|]; [|exact I].
+  rewrite <- (forallb_keys (fun s => mem_str s (keys tbl)) _ _ H).
+  destruct (forallb _ args); [apply bind_fields_sim; exact H|exact I].
+Qed.
+
+(* the call Cls[keyword arguments] on vsim-related keyword arguments: the side conditions are those of post_init on the bound fields *)
+Theorem construct_sim k args args' :
+  fields_sim args args' ->
+  (forall fs fs', bind_args k args = Ok fs -> bind_args k args' = Ok fs' -> side k fs fs') ->
+  res_sim (construct k args) (construct k args').
+Proof.
+  intros H Hside. unfold construct. pose proof (bind_args_sim k _ _ H) as Hb.
+  destruct (bind_args k args) as [fs|], (bind_args k args') as [fs'|]; cbn [res_rel bind] in *; try contradiction; [|exact I].
+  apply post_init_sim; [exact Hb|apply Hside; reflexivity].
+Qed.
+
+(* ================================================================================================ *)
+(* the side conditions in the round-trip direction                                                  *)
+(* ================================================================================================ *)
+(* what a value read back from a file can be *)
+Lemma norm_val_range v v' : norm_val v = Ok v' ->
+  match v' with
+  | VStr _ | VNp _ _ _ | VDict _ | VList _ => True
+  | VArr _ sh _ _ => sh <> []
+  | _ => False
+  end.
+Proof.
+  intros H. destruct v.
+  - discriminate H.
+  - cbn in H. destruct (int64_ok z); [inversion H; exact I|].
+    destruct ((0 <=? z) && (z <? 18446744073709551616)); [inversion H; exact I|discriminate].
+  - cbn in H. inversion H. exact I.
+  - cbn in H. inversion H. exact I.
+  - cbn in H. inversion H. exact I.
+  - cbn in H. inversion H. exact I.
+  - destruct sh as [|n sh].
+    + rewrite norm_val_array0 in H. inversion H. exact I.
+    + rewrite norm_val_array in H by discriminate. inversion H. discriminate.
+  - rewrite norm_val_npscalar in H. inversion H. exact I.
+  - destruct (norm_val_seq_cases true _ _ H) as [(zs & dt & tok & _ & ->)|(rows & _ & _ & ->)]; [discriminate|exact I].
+  - destruct (norm_val_seq_cases false _ _ H) as [(zs & dt & tok & _ & ->)|(rows & _ & _ & ->)]; [discriminate|exact I].
+  - rewrite norm_val_dict in H. apply bind_ok in H as (l' & _ & H). inversion H. exact I.
+Qed.
+
+(* S2 always holds on the file side: a value read back is never a 0-d ndarray *)
+Theorem norm_val_no0d v v' : norm_val v = Ok v' -> is0d v' = false.
+Proof. intros H. apply norm_val_range in H. destruct v'; try reflexivity. destruct sh; [congruence|reflexivity]. Qed.
+
+(* S4 (second alternative) on the file side: a value read back is never a Python int; and a stored Conv2d
+   hyper-parameter never is either *)
+Theorem norm_val_not_pyint v v' : norm_val v = Ok v' -> is_pyint v' = false.
+Proof. intros H. apply norm_val_range in H. destruct v'; try reflexivity; contradiction. Qed.
+Lemma pair_if_int_not_pyint v : is_pyint (pair_if_int v) = false.
+Proof. destruct v; reflexivity. Qed.
+
+(* S1 from the original to the file side: a value that has a .shape still has one when read back *)
+Theorem norm_val_keeps_shape v v' :
+  norm_val v = Ok v' -> is_ok (shape_attr v) = true -> is_ok (shape_attr v') = true.
+Proof.
+  intros H Hs. destruct v; try discriminate Hs.
+  - destruct sh as [|n sh].
+    + rewrite norm_val_array0 in H. inversion H. reflexivity.
+    + rewrite norm_val_array in H by discriminate. inversion H. reflexivity.
+  - rewrite norm_val_npscalar in H. inversion H. reflexivity.
+Qed.
+
+(* S3 from the original to the file side *)
+Theorem norm_val_keeps_operand v v' :
+  norm_val v = Ok v' -> is_ok (operand_shape v) = true -> is_ok (operand_shape v') = true.
+Proof.
+  intros H Hs. destruct v; try discriminate Hs.
+  - cbn in H. destruct (int64_ok z); [inversion H; reflexivity|].
+    destruct ((0 <=? z) && (z <? 18446744073709551616)); [inversion H; reflexivity|discriminate].
+  - cbn in H. inversion H. reflexivity.
+  - cbn in H. inversion H. reflexivity.
+  - destruct sh as [|n sh].
+    + rewrite norm_val_array0 in H. inversion H. reflexivity.
+    + rewrite norm_val_array in H by discriminate. inversion H. reflexivity.
+  - rewrite norm_val_npscalar in H. inversion H. reflexivity.
+Qed.
